@@ -23,6 +23,9 @@ GOOD = {
     '$DATE': ['02-OCT-2015', '2-oct-15', '15-Oct-02', '2015-OCT-31', '99-jan-05', '29-FEB-2016', '01-JAN-70', '07-Mar-68', '29-Feb-48', '55-Oct-31', '31-dec-68', '01-jan-69'],
     'V': ['450', '500.5', ' 650', '7e2'], 'G': ['1', '2.0', '0.5', '8'], 'S': ['CD4 label', 'x', ' CD8 PE', 'GFP     ', ' ', '  padded  '],
 }
+# other spellings of well-formed numbers: upper-case exponent marker (C's %E, Java), no digit before or after the decimal point, explicit plus sign
+GOOD_SCI = {'$TIMESTEP': ['1.0E-02', '.05', '2.5E-2', '+0.01', '1E0', '5.E-3'], 'TIMETICKS': ['2E2', '12.5', '.5E3', '+200'],
+            'V': ['4.5E2', '.5E3', '+450', '450.', '6.5E+02'], 'G': ['2E0', '.5', '1.E0', '+8', '2.5E-1']}
 BAD = {
     '$TIMESTEP': ['abc', '1,5', '0.01s', '--1', '1_', 'e5'],
     'TIMETICKS': ['tick', '2 00', '0x10'],
@@ -137,6 +140,12 @@ class Prop(common.PropertyCheck):
             c.update({'creator': creators[i % len(creators)], 'D': [3, 11, 12][i % 3]})
             yield c
 
+        # numbers written with an upper-case exponent marker, without a digit before / after the decimal point, with a plus sign
+        for i in range(self.budget(40, 300)):
+            sub = [o for o in ('$TIMESTEP', 'TIMETICKS', '$PnV', '$PnG', 'BD$WORDn', 'CytekPnnG', 'CREATOR') if (i >> ('$TIMESTEP', 'TIMETICKS', '$PnV', '$PnG', 'BD$WORDn', 'CytekPnnG', 'CREATOR').index(o)) & 1 or i % 5 == 0]
+            c = self.make_case(rng, sub or ['$TIMESTEP'], timech=[None, 'Time'][i % 2])
+            c['sci'] = True
+            yield c
         # time channels that are not monotone along the event list: the acquisition time is that between the first and the last event
         for i in range(self.budget(24, 200)):
             c = self.make_case(rng, ['$TIMESTEP'] + [o for o in ('TIMETICKS', '$BTIM', '$ETIM', '$DATE') if rng.random() < 0.5], timech=['Time', 'TIME', 'time'][i % 3])
@@ -157,6 +166,8 @@ class Prop(common.PropertyCheck):
 
         def val(key, kind):
             pool = (BAD if key in ill else GOOD)[kind]
+            if case.get('sci') and key not in ill and kind in GOOD_SCI:
+                pool = GOOD_SCI[kind]
             return r.choice(pool)
         for key in ('$TIMESTEP', 'TIMETICKS', '$BTIM', '$ETIM', '$DATE'):
             if key in sub:
